@@ -110,6 +110,14 @@ def c20Contour2d : P String := do
   | .ok ((azs, rows), ls) => pure s!"ok {fVec azs} {fRows rows} {fLines ls}"
   | .error e => pure ("err " ++ e)
 
+/-- `c20.contour3d az dmc peaks` → `ok azimuths* nrows row?*… npk (f a)*` -/
+def c20Contour3d : P String := do
+  let s ← pAzObj; let dmc ← pDist; let pk ← bool
+  match contour3dData dmc pk s with
+  | .ok ((azs, rows), pks) =>
+    pure s!"ok {fVec azs} {fRows rows} {pks.length} {" ".intercalate (pks.map (fun p => fF p.1 ++ " " ++ fF p.2))}"
+  | .error e => pure ("err " ++ e)
+
 /-- `c20.azsummary az opts peakByAzimuth` → artists of panel (c) -/
 def c20AzSummary : P String := do
   let s ← pAzObj; let o ← pOpts; let pk ← bool
@@ -127,6 +135,7 @@ def opsC20 (op : String) : Option (P String) :=
   | "c20.summary" => some c20Summary
   | "c20.recs" => some c20Recs
   | "c20.contour2d" => some c20Contour2d
+  | "c20.contour3d" => some c20Contour3d
   | "c20.azsummary" => some c20AzSummary
   | "c20.spatial" => some c20Spatial
   | _ => none
